@@ -120,7 +120,32 @@ func (e Error) GoString() string {
 }
 
 func (e ottoError) describe(format string, in ...interface{}) string {
-	return fmt.Sprintf(format, in...)
+	// fmt recovers a panic raised by the String method of an operand, so a
+	// Value is converted before it is formatted: an interrupt delivered while
+	// a script toString runs must not be swallowed by the formatter.
+	args := make([]interface{}, len(in))
+	for i, arg := range in {
+		if value, ok := arg.(Value); ok {
+			arg = describeValue(value)
+		}
+		args[i] = arg
+	}
+	return fmt.Sprintf(format, args...)
+}
+
+// describeValue is Value.String for a value that is part of an error
+// message: an exception thrown by the conversion leaves the text empty, any
+// other panic (an interrupt on its way to Run) is passed on as it is.
+func describeValue(value Value) (text string) {
+	defer func() {
+		if caught := recover(); caught != nil {
+			if _, ok := caught.(*exception); !ok {
+				panic(caught)
+			}
+			text = ""
+		}
+	}()
+	return value.string()
 }
 
 func (e ottoError) messageValue() Value {
